@@ -209,6 +209,22 @@ def readVars (fixed : Bool) (code : Bytes) : Nat → List Bool → ReadOut
     | .ok v p => let r := readVars fixed code p ts; ⟨v :: r.vals, r.err, r.pos⟩
     | .err e a ep => ⟨a.toList, some (e, ep), pos⟩
 
+/-- `Interpreter.read_` when the store may refuse an assignment: each variable carries `some e` if
+    `Memory.set_variable` raises BASIC error `e` for the value read (Overflow for a number outside -32768..32767
+    read into a `%` variable; the conversion is an external call, its failure a parameter).  The statement then
+    ends with error `e` at the READ statement itself (`none` = here), the variables before it keep the values
+    already assigned, and the refused item is NOT consumed: `read_` stores the new data pointer only after
+    `set_variable` has returned. -/
+def readVarsR (fixed : Bool) (code : Bytes) : Nat → List (Bool × Option Nat) → ReadOut
+  | pos, [] => ⟨[], none, pos⟩
+  | pos, (t, rf) :: ts =>
+    match readEntry fixed code pos t with
+    | .ok v p =>
+      match rf with
+      | some e => ⟨[], some (e, none), pos⟩
+      | none => let r := readVarsR fixed code p ts; ⟨v :: r.vals, r.err, r.pos⟩
+    | .err e a ep => ⟨a.toList, some (e, ep), pos⟩
+
 /-! ### READ targets: scalars and array elements
 
   `Parser._parse_var_list` is a lazy generator and `Interpreter.read_` loops `for name, indices in args`:
